@@ -8,7 +8,7 @@
 //!   pack = pid_hi pid_lo sizeflag [size] nblobs blob*
 //!   blob = id_hi id_lo tpe(0 tree,1 data) offset length ulen(0 = none)
 //! Result line: for each mode `M tt td` then per query `h g`, then `I` packs.
-use rustic_core::repofile::{IndexFile, IndexPack};
+use rustic_core::repofile::{IndexFile, IndexId, IndexPack};
 use rustic_core::verif_hooks::c17::{self as hook, Answer, IndexHandle};
 use rustic_core::Id;
 use serde_json::{json, Value};
@@ -181,7 +181,12 @@ mod e2e {
     /// The in-memory store, except that partial reads of pack files fail cleanly (the crafted index
     /// files name packs that do not exist; InMemoryBackend would panic on them).
     #[derive(Debug)]
-    struct NoPacks(Arc<InMemoryBackend>);
+    /// Second field: countdown for a read fault - the read_full of an index file that finds it at 0 fails
+    /// (once); negative = no fault.
+    struct NoPacks(Arc<InMemoryBackend>, Arc<std::sync::atomic::AtomicI64>);
+    fn no_fault() -> Arc<std::sync::atomic::AtomicI64> {
+        Arc::new(std::sync::atomic::AtomicI64::new(-1))
+    }
     impl ReadBackend for NoPacks {
         fn location(&self) -> String {
             self.0.location()
@@ -190,6 +195,11 @@ mod e2e {
             self.0.list_with_size(tpe)
         }
         fn read_full(&self, tpe: FileType, id: &Id) -> RusticResult<Bytes> {
+            if tpe == FileType::Index && self.1.load(std::sync::atomic::Ordering::SeqCst) >= 0
+                && self.1.fetch_sub(1, std::sync::atomic::Ordering::SeqCst) == 0
+            {
+                return Err(RusticError::new(ErrorKind::Backend, "injected read fault"));
+            }
             self.0.read_full(tpe, id)
         }
         fn read_partial(&self, tpe: FileType, id: &Id, cacheable: bool, offset: u32, length: u32) -> RusticResult<Bytes> {
@@ -223,12 +233,21 @@ mod e2e {
     /// Per query `h g r`: r = the partial read `blob_from_backend` issued (`c:pack:off:len`),
     /// `-` when it issued none (then the error must be "not found in index"), `?...` otherwise.
     pub fn e2e_case(line: &str) -> String {
-        let c = parse(line);
-        let rec = RecBackend::new(Arc::new(NoPacks(mem())), "c17");
+        let mut c = parse(line);
+        let fault = no_fault();
+        let rec = RecBackend::new(Arc::new(NoPacks(mem(), fault.clone())), "c17");
         let ropts = repo_opts();
         let (repo, key) = init_repo(rec.clone(), None, &ConfigOptions::default(), &ropts).expect("init");
-        for f in &c.files {
-            hook::save_index_file(&repo, f).expect("save index file");
+        // `supersedes` is informational ("not actively used"): the model has no such field, so every
+        // index file that is present counts whatever other files say about it.  Derived from the case
+        // alone (replayable): every second file names its predecessor (still present) and an id that
+        // does not exist, as an old restic or an interrupted index rewrite would leave behind.
+        let mut saved: Vec<Id> = Vec::new();
+        for (i, f) in c.files.iter_mut().enumerate() {
+            if i % 2 == 1 {
+                f.supersedes = Some(vec![IndexId::from(saved[i - 1]), IndexId::from(mkid(0xdead, i as u64))]);
+            }
+            saved.push(hook::save_index_file(&repo, f).expect("save index file"));
         }
         drop(repo);
         rec.set_plan(FaultPlan { record_reads: true, ..Default::default() });
@@ -259,7 +278,24 @@ mod e2e {
         }
         block!(open_repo(rec.clone(), None, &key, &ropts).unwrap().to_indexed().unwrap());
         block!(open_repo(rec.clone(), None, &key, &ropts).unwrap().to_indexed_ids().unwrap());
-        out.join(" ")
+        // One read of an index file fails while the index is loaded: either no index is built, or
+        // the one that is built answers as the fault-free one does (a loader that skips the file and
+        // carries on answers from a partial index).
+        let f = if saved.is_empty() {
+            "none"
+        } else {
+            fault.store((c.queries.len() % saved.len()) as i64, std::sync::atomic::Ordering::SeqCst);
+            let r = match open_repo(rec.clone(), None, &key, &ropts).unwrap().to_indexed() {
+                Err(_) => "err",
+                Ok(repo) => {
+                    block!(repo);
+                    if out.pop().unwrap() == out[0] { "same" } else { "differs" }
+                }
+            };
+            fault.store(-1, std::sync::atomic::Ordering::SeqCst);
+            r
+        };
+        format!("{} | F {}", out.join(" "), f)
     }
 
     /// The index `prune` builds for itself, observed through the real `Repository::prune_plan`:
@@ -270,7 +306,7 @@ mod e2e {
     pub fn prune_case(line: &str) -> String {
         use rustic_core::{PruneOptions, TreeId, repofile::SnapshotFile};
         let c = parse(line);
-        let rec = RecBackend::new(Arc::new(NoPacks(mem())), "c17p");
+        let rec = RecBackend::new(Arc::new(NoPacks(mem(), no_fault())), "c17p");
         let ropts = repo_opts();
         let (repo, _key) = init_repo(rec.clone(), None, &ConfigOptions::default(), &ropts).expect("init");
         for f in &c.files {
